@@ -6,6 +6,7 @@ import (
 	"fmt"
 	"go/types"
 	"math/big"
+	"regexp"
 	"sort"
 	"strings"
 
@@ -238,8 +239,16 @@ func shortTypeName(t types.Type) string {
 		path = strings.TrimPrefix(path, "github.com/ethereum/go-ethereum/")
 		return path
 	})
+	// byte and rune are aliases: one heap component per underlying type
+	s = byteWord.ReplaceAllString(s, "uint8")
+	s = runeWord.ReplaceAllString(s, "int32")
 	return mangle(s)
 }
+
+var (
+	byteWord = regexp.MustCompile(`\bbyte\b`)
+	runeWord = regexp.MustCompile(`\brune\b`)
+)
 
 func isUint256(t types.Type) bool {
 	n, ok := t.(*types.Named)
